@@ -27,7 +27,29 @@ func nestTemplates() []nestTemplate {
 	wrap := func(pre, open, inner, close, post string) func(int) string {
 		return func(n int) string { return pre + rep(open, n) + inner + rep(close, n) + post }
 	}
-	return []nestTemplate{
+	var later []nestTemplate
+	// the nesting sits in a *later* operand: the right (and the left) operand of every binary operator, the second
+	// argument, the second list element, the second arm, the upper bound — what is counted for the first operand of a
+	// production is counted for the others
+	for _, op := range []string{"OR", "AND", "=", "<>", "<", "+", "-", "*", "/", "%", "||", "LIKE"} {
+		cond := "SELECT a FROM t WHERE "
+		later = append(later, nestTemplate{"right-operand:" + op, wrap(cond, "1 "+op+" (", "2", ")", "")})
+		later = append(later, nestTemplate{"left-operand:" + op, wrap(cond, "(", "2", ") "+op+" 1", "")})
+		later = append(later, nestTemplate{"right-operand-call:" + op, wrap("SELECT ", "1 "+op+" f(", "2", ")", " FROM t")})
+	}
+	later = append(later,
+		nestTemplate{"second-argument", wrap("SELECT ", "f(0, ", "1", ")", " FROM t")},
+		nestTemplate{"second-list-element", wrap("SELECT a FROM t WHERE ", "a IN (0, (", "1", "))", "")},
+		nestTemplate{"second-case-arm", wrap("SELECT ", "CASE WHEN a THEN 0 WHEN b THEN ", "1", " END", " FROM t")},
+		nestTemplate{"between-upper-bound", wrap("SELECT a FROM t WHERE ", "a BETWEEN 0 AND (", "1", ")", "")},
+		nestTemplate{"second-select-item", wrap("SELECT 0, ", "(", "1", ")", " FROM t")},
+		nestTemplate{"second-join-condition", wrap("SELECT a FROM t JOIN u ON 1 = 1 JOIN v ON ", "(", "a = 1", ")", "")},
+		nestTemplate{"having", wrap("SELECT a FROM t GROUP BY a HAVING ", "(", "a = 1", ")", "")},
+		nestTemplate{"order-by-second-key", wrap("SELECT a FROM t ORDER BY a, ", "(", "b", ")", "")},
+		nestTemplate{"values-second-row", wrap("INSERT INTO t VALUES (0), (", "(", "1", ")", ")")},
+		nestTemplate{"update-second-assignment", wrap("UPDATE t SET a = 0, b = ", "(", "1", ")", "")},
+	)
+	return append(later, []nestTemplate{
 		{"parens", wrap("SELECT ", "(", "1", ")", " FROM t")},
 		{"parens-where", wrap("SELECT a FROM t WHERE ", "(", "a = 1", ")", "")},
 		{"function-args", wrap("SELECT ", "f(", "1", ")", " FROM t")},
@@ -83,7 +105,7 @@ func nestTemplates() []nestTemplate {
 		{"postfix-is-null", wrap("SELECT a FROM t WHERE ", "", "a", " IS NULL", "")},
 		{"postfix-collate", wrap("SELECT ", "", "a", " COLLATE x", " FROM t")},
 		{"postfix-at-time-zone", wrap("SELECT ", "", "a", " AT TIME ZONE 'x'", " FROM t")},
-	}
+	}...)
 }
 
 // chainTemplates: repetitions that build a deep tree through a loop rather than through recursion
